@@ -226,3 +226,11 @@ def m5(ctx):
 
 
 RULES.append(m5)
+
+
+@rule("LC", doc="loop-exit census: every iterator-driven loop of the library runs to exhaustion, except a frozen per-file reviewed set of search / error-propagation loops")
+def lc(ctx):
+    C.loop_census(ctx, ctx.lib())
+
+
+RULES.append(lc)
